@@ -152,19 +152,24 @@ class Walker:
             return ("unit",)
         return ("unknown", "const:" + str(o.get("text")) + ":" + o.get("ty", ""))
 
+    def local_term(self, st, l):
+        env = st["env"]
+        if l in env:
+            return env[l]
+        if 1 <= l <= self.body.arg_count and l not in self.init_env:
+            return ("arg", l, self.body.local_name(l))
+        return ("local", l, self.body.path)
+
     def place_term(self, st, p, read=True):
         env, mem = st["env"], st["mem"]
         l = p["l"]
-        if l in env:
-            t = env[l]
-        elif 1 <= l <= self.body.arg_count:
-            t = ("arg", l, self.body.local_name(l))
-        else:
-            t = ("local", l)
+        t = self.local_term(st, l)
         for e in p["proj"]:
             if e == "deref":
                 if t[0] == "ref":
                     t = t[1]
+                    if t[0] == "local" and len(t) > 2 and t[2] == self.body.path and read:
+                        t = self.local_term(st, t[1])
                 else:
                     t = ("deref", t)
             elif isinstance(e, dict) and "field" in e:
@@ -185,7 +190,7 @@ class Walker:
                 t = ("variant", t, e["variant"])
                 continue
             elif isinstance(e, dict) and "index" in e:
-                it = env.get(e["index"], ("local", e["index"]))
+                it = self.local_term(st, e["index"])
                 t = ("index", t, it)
             elif isinstance(e, dict) and "cindex" in e:
                 t = ("index", t, ("const", int(e["cindex"]), "usize"))
@@ -208,7 +213,15 @@ class Walker:
         if k == "use":
             return self.operand(st, rv["op"])
         if k == "ref" or k == "rawptr":
-            return ("ref", self.place_term(st, rv["place"], read=False))
+            pl = rv["place"]
+            if not pl["proj"] and pl["l"] in st["env"] and st["env"][pl["l"]][0] not in ("ref",):
+                # address of a local that holds a value: keep the local's identity
+                r = ("ref", ("local", pl["l"], self.body.path))
+            else:
+                r = ("ref", self.place_term(st, pl, read=False))
+            if rv.get("mut"):
+                st["mutrefs"].add(r)
+            return r
         if k == "cast":
             t = self.operand(st, rv["op"])
             if rv["kind"].startswith("PointerCoercion"):
@@ -246,7 +259,7 @@ class Walker:
 
     # -- walking ------------------------------------------------------------
     def run(self):
-        st = {"env": dict(self.init_env), "mem": {}, "cons": [], "events": [], "visits": {}, "blocks": [], "ncall": 0}
+        st = {"env": dict(self.init_env), "mem": {}, "cons": [], "events": [], "visits": {}, "blocks": [], "ncall": 0, "mutrefs": set()}
         stack = [(0, st)]
         while stack:
             bid, st = stack.pop()
@@ -270,7 +283,7 @@ class Walker:
     def fork(st):
         return {"env": dict(st["env"]), "mem": dict(st["mem"]), "cons": list(st["cons"]),
                 "events": list(st["events"]), "visits": dict(st["visits"]), "blocks": list(st["blocks"]),
-                "ncall": st["ncall"]}
+                "ncall": st["ncall"], "mutrefs": set(st["mutrefs"])}
 
     def known(self, st, d):
         """value forced for discriminant term d by earlier constraints, and excluded values"""
@@ -302,8 +315,11 @@ class Walker:
                     st["env"][p["l"]] = val
                 else:
                     key = self.place_term(st, p, read=False)
-                    st["mem"][key] = val
-                    st["events"].append(("store", key, val, s.get("line")))
+                    if key[0] == "local" and len(key) > 2 and key[2] == self.body.path:
+                        st["env"][key[1]] = val
+                    else:
+                        st["mem"][key] = val
+                        st["events"].append(("store", key, val, s.get("line")))
             t = blk["term"]
             k = t["k"]
             if k == "goto":
@@ -318,7 +334,7 @@ class Walker:
                 bid = t["target"]
                 continue
             if k == "return":
-                ret = st["env"].get(0, ("local", 0))
+                ret = self.local_term(st, 0)
                 self.finish(st, ("return",), ret)
                 return
             if k == "unreachable":
@@ -342,15 +358,18 @@ class Walker:
                 else:
                     st["ncall"] += 1
                     res = ("ret", st["ncall"], fname)
-                    ev = ("call", fname, args, res, resolved, t.get("line"), fterm, tuple(t["func"].get("fn_args", [])))
+                    rargs = tuple(("ref", st["env"][a[1][1]]) if (a[0] == "ref" and a[1][0] == "local" and len(a[1]) > 2
+                                                                  and a[1][2] == self.body.path and a[1][1] in st["env"]) else a
+                                  for a in args)
+                    ev = ("call", fname, args, res, resolved, t.get("line"), fterm, tuple(t["func"].get("fn_args", [])), rargs)
                     st["events"].append(ev)
                     # &mut arguments: the callee may change what they point to
                     for a in args:
-                        if a[0] == "ref":
+                        if a[0] == "ref" and a in st["mutrefs"]:
                             for key in [kk for kk in st["mem"] if _mentions(kk, a[1])]:
                                 del st["mem"][key]
-                            if a[1][0] == "local" and a[1][1] in st["env"]:
-                                st["env"][a[1][1]] = ("after", res, a[1])
+                            if a[1][0] == "local" and len(a[1]) > 2 and a[1][2] == self.body.path and a[1][1] in st["env"]:
+                                st["env"][a[1][1]] = ("after", res, st["env"][a[1][1]])
                 if not dest["proj"]:
                     st["env"][dest["l"]] = res
                 else:
@@ -495,9 +514,11 @@ def expand(t, path, depth=0):
     structurally (call ordinals differ between paths)"""
     if not isinstance(t, tuple) or not t or depth > 40:
         return t
+    if t[0] == "after":
+        return expand(t[2], path, depth + 1)
     if t[0] == "ret":
         for e in path.events:
             if e[0] == "call" and e[3] == t:
-                return ("app", e[1], tuple(expand(a, path, depth + 1) for a in e[2]))
+                return ("app", e[1], tuple(expand(a, path, depth + 1) for a in e[8]))
         return ("app", t[2], ())
     return tuple(expand(x, path, depth + 1) if isinstance(x, tuple) else x for x in t)
